@@ -20,6 +20,7 @@ from .vcgen import Translator, FunctionVerifier, LemmaVerifier, Result
 FAMILIES = {
     'layout': 'pvf.contracts.layout',
     'runpretty': 'pvf.contracts.runpretty',
+    'strings': 'pvf.contracts.strings',
 }
 
 
